@@ -132,8 +132,17 @@ def bounded_harness(which: str, op: str):
                          "writer": te.stub("writer"), "is_closed": VBool(False),
                          "_is_closed": VBool(False), "BUFSIZE": VInt(8192)})
         args = [timeout, NONE] if op == "read" else [I.fresh_bytes("data"), timeout, NONE]
+        from pyvc.values import Unsupported
         try:
             I.await_v(I.call_v(I.getattr_v(obj, op), args, {}))
+        except Unsupported as e:
+            if "does not terminate within" not in str(e):
+                raise
+            # a loop whose every iteration is decided the same way under the path condition
+            # (e.g. re-reading at EOF): the call never returns and - without an await that
+            # suspends - not even the caller's timeout can fire
+            I.fail(f"B-{op}-returns(no-loop-that-repeats-without-progress)", str(e))
+            return
         except PyExc as e:
             I.prove(f"B-{op}-fails-only-with-timeout-or-connection-error", z3.BoolVal(
                 issubclass(e.exc.cls, (TimeoutError, ConnectionError))), e.exc.cls.__name__)
@@ -344,9 +353,50 @@ def build_units(tier: str) -> list[Unit]:
     return units
 
 
+def native_hang(which: str) -> tuple[bool, str]:
+    """the real read() at EOF / on silence, in a child process with a hard limit (a coroutine
+    that spins without suspending blocks the whole event loop, so it cannot be timed in-process)"""
+    import subprocess
+    import sys
+    prog = (
+        "import asyncio, sys\n"
+        "import gallia.command\n"
+        "from gallia.transports import tcp, unix\n"
+        "from gallia.transports.base import TargetURI\n"
+        "class W:\n"
+        "    def write(self, b): pass\n"
+        "    async def drain(self): pass\n"
+        "    def close(self): pass\n"
+        "    async def wait_closed(self): pass\n"
+        "    def is_closing(self): return False\n"
+        "    def get_extra_info(self, *a): return None\n"
+        "async def go():\n"
+        "    r = asyncio.StreamReader()\n"
+        "    cls = tcp.TCPLinesTransport if sys.argv[1] == 'tcp-lines' else unix.UnixLinesTransport\n"
+        "    t = cls.__new__(cls)\n"
+        "    t.reader, t.writer, t.is_closed, t.mutex = r, W(), False, asyncio.Lock()\n"
+        "    t.target = TargetURI('tcp-lines://127.0.0.1:1')\n"
+        "    r.feed_eof()\n"
+        "    try:\n"
+        "        d = await t.read(timeout=0.5)\n"
+        "        print('returned', d)\n"
+        "    except Exception as e:\n"
+        "        print('raised', type(e).__name__)\n"
+        "asyncio.run(go())\n")
+    try:
+        r = subprocess.run([sys.executable, "-c", prog, which], capture_output=True, text=True,
+                           timeout=8)
+    except subprocess.TimeoutExpired:
+        return True, (f"{which}: read(timeout=0.5) at EOF did not come back within 8 s - the "
+                      "event loop is stuck, the caller's timeout never fires")
+    return False, f"{which}: read at EOF {r.stdout.strip() or r.stderr.strip()[-200:]}"
+
+
 def native_replay(unit: str, obligation: str, model: dict) -> tuple[bool, str]:
     import logging
     logging.disable(logging.CRITICAL)
+    if "no-loop-that-repeats-without-progress" in obligation:
+        return native_hang(unit.split("/")[1])
     h = H()
     from .c06 import FakeWriter
 
